@@ -58,33 +58,38 @@ fn nth_pos(v: &[u8], byte: u8, n: u16) -> Option<usize> {
 impl ReqCase {
     pub fn render(&self, bufsize: usize) -> Vec<u8> {
         let mut v = self.base.render();
-        for m in &self.muts {
-            match m {
-                Mut::Truncate(f) => { let k = pick_idx(*f, v.len() + 1); v.truncate(k); }
-                Mut::DeleteAt(p, n) => { if !v.is_empty() { let i = pick_idx(*p, v.len()); let e = (i + *n as usize + 1).min(v.len()); v.drain(i..e); } }
-                Mut::InsertAt(p, b) => { let i = pick_idx(*p, v.len() + 1); let tail = v.split_off(i); v.extend_from_slice(&b.0); v.extend_from_slice(&tail); }
-                Mut::ReplaceAt(p, b) => { if !v.is_empty() { let i = pick_idx(*p, v.len()); for (k, x) in b.0.iter().enumerate() { if i + k < v.len() { v[i + k] = *x; } } } }
-                Mut::DropCr(n) => { if let Some(i) = nth_pos(&v, b'\r', *n) { v.remove(i); } }
-                Mut::DropLf(n) => { if let Some(i) = nth_pos(&v, b'\n', *n) { v.remove(i); } }
-                Mut::DupLf(n) => { if let Some(i) = nth_pos(&v, b'\n', *n) { v.insert(i, b'\n'); } }
-                Mut::Flip(p, bit) => { if !v.is_empty() { let i = pick_idx(*p, v.len()); v[i] ^= 1 << (bit % 8); } }
-                Mut::ManyHeaders { count, width } => {
-                    let at = super::util::find_sub(&v, b"\r\n\r\n").map(|p| p + 2).unwrap_or(v.len());
-                    let tail = v.split_off(at);
-                    let w = (*width).max(2) as usize;
-                    for k in 0..*count as usize {
-                        // "a:" + filler, then LF only for the narrowest lines, CRLF otherwise
-                        let mut line = vec![b'a' + (k % 26) as u8, b':'];
-                        while line.len() + 1 < w { line.push(b'x'); }
-                        if w <= 3 { line.truncate(w - 1); line.push(b'\n'); } else { line.truncate(w - 2); line.extend_from_slice(b"\r\n"); }
-                        v.extend_from_slice(&line);
-                    }
-                    v.extend_from_slice(&tail);
-                }
-                Mut::Oversize(delta) => { let want = bufsize + (*delta as usize % 3000); while v.len() < want { v.push(b'A' + (v.len() % 26) as u8); } }
-            }
-        }
+        apply_muts(&mut v, &self.muts, bufsize);
         v
+    }
+}
+
+/// Apply byte-level mutations to any document.
+pub fn apply_muts(v: &mut Vec<u8>, muts: &[Mut], bufsize: usize) {
+    for m in muts {
+        match m {
+            Mut::Truncate(f) => { let k = pick_idx(*f, v.len() + 1); v.truncate(k); }
+            Mut::DeleteAt(p, n) => { if !v.is_empty() { let i = pick_idx(*p, v.len()); let e = (i + *n as usize + 1).min(v.len()); v.drain(i..e); } }
+            Mut::InsertAt(p, b) => { let i = pick_idx(*p, v.len() + 1); let tail = v.split_off(i); v.extend_from_slice(&b.0); v.extend_from_slice(&tail); }
+            Mut::ReplaceAt(p, b) => { if !v.is_empty() { let i = pick_idx(*p, v.len()); for (k, x) in b.0.iter().enumerate() { if i + k < v.len() { v[i + k] = *x; } } } }
+            Mut::DropCr(n) => { if let Some(i) = nth_pos(v, b'\r', *n) { v.remove(i); } }
+            Mut::DropLf(n) => { if let Some(i) = nth_pos(v, b'\n', *n) { v.remove(i); } }
+            Mut::DupLf(n) => { if let Some(i) = nth_pos(v, b'\n', *n) { v.insert(i, b'\n'); } }
+            Mut::Flip(p, bit) => { if !v.is_empty() { let i = pick_idx(*p, v.len()); v[i] ^= 1 << (bit % 8); } }
+            Mut::ManyHeaders { count, width } => {
+                let at = super::util::find_sub(v, b"\r\n\r\n").map(|p| p + 2).unwrap_or(v.len());
+                let tail = v.split_off(at);
+                let w = (*width).max(2) as usize;
+                for k in 0..*count as usize {
+                    // "a:" + filler, then LF only for the narrowest lines, CRLF otherwise
+                    let mut line = vec![b'a' + (k % 26) as u8, b':'];
+                    while line.len() + 1 < w { line.push(b'x'); }
+                    if w <= 3 { line.truncate(w - 1); line.push(b'\n'); } else { line.truncate(w - 2); line.extend_from_slice(b"\r\n"); }
+                    v.extend_from_slice(&line);
+                }
+                v.extend_from_slice(&tail);
+            }
+            Mut::Oversize(delta) => { let want = bufsize + (*delta as usize % 3000); while v.len() < want { v.push(b'A' + (v.len() % 26) as u8); } }
+        }
     }
 }
 
